@@ -133,7 +133,9 @@ func TestC05(t *testing.T) {
 	run := mon.Start(t, "C05", "fault_enumeration",
 		"wait path {pipeline sync, pipeline queued, DoMulti, blocking-pool wait, cache-flight waiter (DoCache, DoMultiCache, MGET), retry back-off, slow dial} x fault {server never answers, answers after the deadline, LOADING forever, connection dropped} x "+
 			"context {deadline d, manual cancel at instant T, already done} x queue {ring, flowbuffer} x AlwaysPipelining, each as one history in a synctest bubble; oracle on virtual instants: return time <= deadline (cancel: == T), an already-done context sends nothing (server log); "+
-			"a case = (scenario, path, deadline, outcome)")
+			"a case = (scenario, path, deadline, outcome); "+
+			"plus blocking-pool waiters against the wake-up for a done context: context {deadline, manual cancel} x the instant it is done falls {between the waiter's test of the context and its parking (waiter held at the pool's monitor hook, pool lock held, like a preempted goroutine), after it parked} x "+
+			"pool capacity 1-3 (all held) x 1-3 waiters (the others done at the same instant or later) x pool user {Do blocking, DoMulti blocking, DoStream}; oracle: every waiter is back by the instant its context was done")
 	defer run.Finish()
 	run.Assume("virtual time (testing/synctest): 'shortly after the deadline' is decided as 'not after the deadline instant' on the paths that only wait", "fakeredis Stall / DelayReply / Close fault rules")
 	ds := []time.Duration{time.Millisecond, 20 * time.Millisecond, 300 * time.Millisecond, 3 * time.Second}
@@ -329,5 +331,9 @@ func TestC05(t *testing.T) {
 			})
 		}
 	}
-	run.Require("deadline_calls", "manual_cancels", "already_done_calls", "retry_scenarios")
+	// the blocking pool's waiters against the wake-up sent for a done context (poolrace_test.go)
+	for _, rc := range raceCases(run.Rand("pool-wakeup-race"), run.N(1, 12)) {
+		poolWakeupRace(run, t, rc)
+	}
+	run.Require("deadline_calls", "manual_cancels", "already_done_calls", "retry_scenarios", "pool_race_context_done_between_check_and_park", "pool_race_context_done_after_park")
 }
